@@ -176,27 +176,41 @@ def run_harness_chunk(exe, lines, args, timeout=600):
             err = "harness timeout after %ds" % timeout
         if out and out[-1] == "":
             out.pop()
-        got = [l for l in out if not l.startswith("!crash")]
         marker = [l for l in out if l.startswith("!crash")]
         n = len(lines) - start
-        if len(got) >= n and rc == 0:
-            results += got[:n]
+        # results carry their input line number ("#k result"); anything else on stdout is noise written by the library
+        got = {}
+        noise = []
+        for l in out:
+            m = re.match(r"#(\d+) (.*)$", l)
+            if m:
+                # a crash while an op runs leaves "#k " without newline followed by the marker; handled below
+                got[int(m.group(1))] = m.group(2)
+            elif l.startswith("!crash") or re.match(r"#\d+ ?$", l):
+                pass
+            else:
+                mm = re.match(r"#(\d+) ?(.*)!crash", l)
+                if not mm:
+                    noise.append(l)
+        k = 0
+        while k < n and k in got and not got[k].startswith("!crash") and "!crash" not in got[k]:
+            k += 1
+        answered = [got[i] for i in range(k)]
+        if noise and answered:
+            answered[-1] = "crash:stdout-noise " + noise[0][:120].replace(" ", "_")
+        if k >= n and rc == 0:
+            results += answered
             break
-        if len(got) >= n:
-            # all lines answered but the process failed at exit: leak or sanitizer report at exit
+        if k >= n:
             culprit = bisect_exit_failure(exe, lines[start:], args, env, timeout)
             summ = summarize_stderr(err)
             for i in range(n):
-                if i == culprit:
-                    results.append("crash:exit rc=%d %s" % (rc, summ))
-                else:
-                    results.append(got[i])
+                results.append("crash:exit rc=%d %s" % (rc, summ) if i == culprit else answered[i])
             break
-        # crashed on line start+len(got)
-        results += got
+        results += answered
         why = marker[0][1:] if marker else "rc=%d" % rc
         results.append("crash:%s %s" % (why.replace(" ", "_"), summarize_stderr(err)))
-        start = start + len(got) + 1
+        start = start + k + 1
     return results
 
 
